@@ -6,7 +6,7 @@ CONSTANTS
   NReq = 3
   NConn = 3
   MaxDie = 1
-  MaxTmo = 1
+  MaxTmo = 2
   ExtClose = TRUE
   FixPQ = TRUE
   FixDeq = TRUE
